@@ -129,6 +129,8 @@ pub struct Rendered {
     /// false when the text has regions whose tokenisation the renderer does not predict
     pub tokens_exact: bool,
     pub lines: u32,
+    /// (byte offset just after each `else` keyword, its 1-based line)
+    pub else_ends: Vec<(usize, u32)>,
 }
 
 #[derive(Debug)]
@@ -166,6 +168,7 @@ pub struct Renderer<'r> {
     glue_next: bool,
     quiet: bool,
     depth: usize,
+    else_ends: Vec<(usize, u32)>,
 }
 
 pub fn render(p: &Program, sp: &Spelling, rng: &mut Rng) -> R<Rendered> {
@@ -208,6 +211,7 @@ impl<'r> Renderer<'r> {
             glue_next: false,
             quiet: false,
             depth: 0,
+            else_ends: Vec::new(),
         }
     }
 
@@ -219,6 +223,7 @@ impl<'r> Renderer<'r> {
             stmts: self.stmts,
             used: self.used,
             tokens_exact: self.tokens_exact,
+            else_ends: self.else_ends,
         }
     }
 
@@ -335,6 +340,15 @@ impl<'r> Renderer<'r> {
         if !self.sp.vary_case || !w.is_ascii() {
             return w.to_string();
         }
+        let cased = self.case_ascii(w);
+        // U+212A KELVIN SIGN is an upper-case letter whose lower case is the ASCII `k`: one more way to write a K
+        if cased.contains('K') && self.rng.chance(1, 8) {
+            return cased.replacen('K', "\u{212a}", 1);
+        }
+        cased
+    }
+
+    fn case_ascii(&mut self, w: &str) -> String {
         match self.rng.below(6) {
             0 | 1 | 2 => w.to_string(),
             3 => w.to_ascii_uppercase(),
@@ -1164,6 +1178,7 @@ impl<'r> Renderer<'r> {
                 self.block(then, false)?;
                 if let Some(e) = els {
                     self.kw(Kw::Else);
+                    self.else_ends.push((self.out.len(), self.line));
                     self.eol(EolPunct::None);
                     self.block(e, false)?;
                 }
